@@ -1,5 +1,5 @@
 (* C04 — Middleware runs in global -> group -> route -> handler onion order. Property theorems only. *)
-From Rux Require Import Base Writer Chain ChainFacts Dispatch Reg RegFacts.
+From Rux Require Import Base Writer Chain ChainFacts ChainMore Dispatch Reg RegFacts.
 Open Scope Z_scope.
 
 (* the chain the dispatcher assembles: global middleware as registered at request time, then the
@@ -41,6 +41,17 @@ Theorem C04_no_cursor_crash : forall n hs x,
   handlers_ok eff hs -> ~ is_index_panic xctx eff (mrun n (init xctx eff hs x)).
 Proof. intros n hs x. exact (reachable_no_index_panic xctx eff apply_eff note_aborted abort_status n hs x). Qed.
 
+(* handlers that call Next ANY number of times (and abort, panic, ...): in a chain of at most 63 handlers every handler
+   still starts at most once - later Next calls never restart anything *)
+Theorem C04_next_many_each_once : forall n (hs : list hprog) x, Z.of_nat (List.length hs) <= 63 ->
+  NoDup (started_of xctx eff (mrun n (init xctx eff hs x))).
+Proof. intros n hs x. exact (next_many_each_once_63 xctx eff apply_eff note_aborted abort_status n hs x). Qed.
+(* and without Abort ops the cursor cannot crash as long as chain length + number of Next ops <= 127 (beyond: K2) *)
+Theorem C04_next_many_no_crash : forall n (hs : list hprog) x,
+  forallb (na_ops eff) hs = true -> Z.of_nat (List.length hs) + total_next eff hs <= 127 ->
+  ~ is_index_panic xctx eff (mrun n (init xctx eff hs x)).
+Proof. intros n hs x. exact (next_many_no_index_panic xctx eff apply_eff note_aborted abort_status n hs x). Qed.
+
 (* known finding K2 (not repaired): 43 middleware calling Next twice each wrap the int8 cursor:
    the request dies with an index-out-of-range panic *)
 Definition twice (i : nat) : hprog := [OEff (EEv i); ONext; ONext].
@@ -56,4 +67,6 @@ Print Assumptions C04_route_middleware.
 Print Assumptions C04_onion.
 Print Assumptions C04_each_at_most_once.
 Print Assumptions C04_no_cursor_crash.
+Print Assumptions C04_next_many_each_once.
+Print Assumptions C04_next_many_no_crash.
 Print Assumptions C04_next_twice_refuted.
